@@ -118,17 +118,20 @@ def rule_pipe(ctx):
     site = ctx.site(b)
     lets = hq.lets(b["body"])
     pipes = {}
+    local_names = {}
     for name in ("left", "right"):
-        cands = [l for l in lets.get(name, []) if "self.%s" % name in flow.places_in(flow.summ(l.get("init", {"k": "Lit"})))]
+        # the local by its role: the one initialised from self.<side>, whatever it is called
+        cands = [l for ls_ in lets.values() for l in ls_ if l["pat"].get("p") == "Bind" and "self.%s" % name in flow.places_in(flow.summ(l.get("init", {"k": "Lit"})))]
         if len(cands) != 1:
             raise AnalysisGap("decompose: no unique local initialised from self.%s" % name)
         lid = cands[0]["pat"]["id"]
+        local_names[name] = cands[0]["pat"].get("name")
         steps = []
         for conds, s, n in flow.pipeline(b["body"], lid, mutations=True):
             steps.append((tuple(conds), flow.strip_ids(s), tuple(sorted(set(portfolio_consts(b["body"], s))))))
         pipes[name] = steps
     # sibling equality
-    ren = [(c, flow.rename_term(s, {"self.left": "self.right", "left": "right"}), p) for c, s, p in pipes["left"]]
+    ren = [(c, flow.rename_term(s, {"self.left": "self.right", local_names["left"]: local_names["right"]}), p) for c, s, p in pipes["left"]]
     ctx.add("FLOW-PIPE", "siblings", ren == pipes["right"], site, "the pipelines applied to left and right are identical up to renaming (%d steps each)" % len(pipes["left"]),
             construct=[(c, flow.callees_in(s), p) for c, s, p in pipes["left"]])
     for side in ("left", "right"):
